@@ -14,4 +14,15 @@ for d in (PKG, LINT):
             trees[fn[:-3]] = ast.parse(open(os.path.join(root, d, fn)).read())
 table = canon.make_table(trees)
 json.dump(table, open(os.path.join(VERIF, "sa", "canon_table.json"), "w"), indent=0, sort_keys=True)
+# reference copy of the reviewed modules (sa/normalise.py proves edited statements interchangeable with these before the rules run)
+import shutil
+for d in (PKG, LINT):
+    dst = os.path.join(VERIF, "sa", "reference", d)
+    os.makedirs(dst, exist_ok=True)
+    for fn in sorted(os.listdir(dst)):
+        if fn.endswith(".py"):
+            os.unlink(os.path.join(dst, fn))
+    for fn in sorted(os.listdir(os.path.join(root, d))):
+        if fn.endswith(".py"):
+            shutil.copy(os.path.join(root, d, fn), os.path.join(dst, fn))
 print("functions:", sum(len(v) for v in table.values()), "locals:", sum(len(x) for v in table.values() for x in v.values()))
